@@ -52,11 +52,13 @@ pub struct MoveClass {
     pub corner_capture: bool,
     pub rights_move: bool,
     pub check: bool,
+    /// a non-pawn man lands on the en-passant square (not a capture; C13 flags)
+    pub onto_ep: bool,
 }
 
 impl MoveClass {
     pub fn special(&self) -> bool {
-        self.ep || self.castle || self.promo || self.corner_capture || self.rights_move || self.check
+        self.ep || self.castle || self.promo || self.corner_capture || self.rights_move || self.check || self.onto_ep
     }
 }
 
@@ -69,6 +71,7 @@ pub fn classify(b: &ChessBoard, m: &BoardMove) -> MoveClass {
             BoardMove::MovePiece(p) => {
                 let d = p.get_destination_square();
                 c.ep = p.get_piece_type() == PieceType::Pawn && b.get_en_passant() == Some(d);
+                c.onto_ep = p.get_piece_type() != PieceType::Pawn && b.get_en_passant() == Some(d);
                 c.promo = p.get_promotion().is_some();
                 c.capture = c.ep || !b.is_empty_square(d);
                 c.corner_capture = c.capture && matches!(d.to_index(), 0 | 7 | 56 | 63);
@@ -107,6 +110,9 @@ pub fn note_played(stats: &mut Stats, c: &MoveClass) {
     }
     if c.check {
         stats.inc("played.checks");
+    }
+    if c.onto_ep {
+        stats.inc("played.piece_onto_ep_square");
     }
 }
 
@@ -154,7 +160,9 @@ pub fn choose_weighted_bias(
                     }
                 }
             }
-            if c.special() {
+            if c.onto_ep || c.corner_capture {
+                48
+            } else if c.special() {
                 8
             } else {
                 1
@@ -452,10 +460,13 @@ pub fn g7_candidate(rng: &mut Rng) -> Option<(ChessBoard, &'static str)> {
         if cells[s].is_none() && !reserved(s, ep) { cells[s] = Some(Piece(PieceType::King, opp)); placed_ok = true; break; }
     }
     if !placed_ok { return None; }
-    let extra = rng.range(0, 6);
+    // a third of the ep candidates get a crowd of enemy officers, which makes "stalemate except for an illegal
+    // en-passant capture" reachable by rejection sampling
+    let crowd = ep.is_some() && rng.pct(35);
+    let extra = if crowd { rng.range(4, 9) } else { rng.range(0, 6) };
     for _ in 0..extra {
-        let t = pt(rng.below(5));
-        let c = if rng.pct(70) { opp } else { own };
+        let t = if crowd { pt(1 + rng.below(4)) } else { pt(rng.below(5)) };
+        let c = if crowd || rng.pct(70) { opp } else { own };
         for _try in 0..50 {
             let s = rng.below(64);
             if cells[s].is_some() || reserved(s, ep) { continue; }
@@ -477,6 +488,14 @@ pub fn g7_candidate(rng: &mut Rng) -> Option<(ChessBoard, &'static str)> {
         }
         None => false,
     };
+    let incheck = catch(|| b.get_check_mask().bits() != 0).unwrap_or(false);
+    if legal.is_empty() && ep_illegal && !incheck {
+        return Some((b, "ep-stalemate"));
+    }
+    if crowd {
+        // crowded candidates are only worth keeping when they are (nearly) immobile
+        return if legal.len() <= 1 { Some((b, "ep-crowd")) } else { None };
+    }
     if low || ep_illegal || rng.pct(3) { Some((b, if low { "lowmob" } else { kind })) } else { None }
 }
 
@@ -541,7 +560,7 @@ impl Spec {
     fn occupied(&self, s: usize) -> bool { self.pcs[..self.n as usize].iter().any(|p| p.0 as usize == s) }
 }
 
-pub const FAMILY_NAMES: [&str; 5] = ["pins_checks", "castling_paths", "ep_discovered", "promo_capture", "three_same"];
+pub const FAMILY_NAMES: [&str; 6] = ["pins_checks", "castling_paths", "ep_discovered", "promo_capture", "three_same", "corner_capture"];
 
 fn rf(s: usize) -> (i32, i32) { ((s / 8) as i32, (s % 8) as i32) }
 
@@ -861,6 +880,58 @@ fn family_three(v: &mut Vec<Spec>) {
     }
 }
 
+/// Family 5 (added after seeded change C06-a): the side to move can capture a home-corner rook whose owner still
+/// holds the castling right, with every piece type including the king (and a promoting pawn).
+fn family_corner(v: &mut Vec<Spec>) {
+    for owner in 0..2u8 {
+        let (oc, ac) = if owner == 0 { (W, B) } else { (B, W) };
+        let back = if owner == 0 { 0usize } else { 56 };
+        for rr in 1..4u8 {
+            for corner_file in [0usize, 7] {
+                let bit = if corner_file == 0 { 1 } else { 2 };
+                if rr & bit == 0 {
+                    continue;
+                }
+                let corner = back + corner_file;
+                let mut base = Spec::new(1 - owner, 5);
+                if owner == 0 { base.wr = rr } else { base.br = rr }
+                base.put(back + 4, K + oc);
+                if rr & 1 != 0 { base.put(back, R + oc); }
+                if rr & 2 != 0 { base.put(back + 7, R + oc); }
+                for t in [K, Q, R, BI, N, P] {
+                    for s in 0..64usize {
+                        if s == corner { continue; }
+                        let al = aligned(s, corner);
+                        let ok = match t {
+                            x if x == K => cheb(s, corner) == 1,
+                            x if x == N => knight_from(corner).contains(&s),
+                            x if x == R => al == 1,
+                            x if x == BI => al == 2,
+                            x if x == Q => al != 0,
+                            _ => {
+                                // pawn one rank in front of the owner's back rank, on the neighbouring file
+                                let (r, f) = rf(s);
+                                let pr = if owner == 0 { 1 } else { 6 };
+                                r == pr && (f - corner_file as i32).abs() == 1
+                            }
+                        };
+                        if !ok { continue; }
+                        let mut sp = base;
+                        if t == K {
+                            sp.auto_king = 0;
+                        } else {
+                            sp.auto_king = if owner == 0 { 2 } else { 1 };
+                        }
+                        if sp.put(s, t + ac) {
+                            v.push(sp);
+                        }
+                    }
+                }
+            }
+        }
+    }
+}
+
 pub fn g3_specs() -> Vec<Spec> {
     let mut v = Vec::new();
     family_pins_checks(&mut v);
@@ -868,6 +939,7 @@ pub fn g3_specs() -> Vec<Spec> {
     family_ep(&mut v);
     family_promo(&mut v);
     family_three(&mut v);
+    family_corner(&mut v);
     v
 }
 
